@@ -727,3 +727,12 @@ func (g *Gen) deferObl(kind, label string, reach, goal Term, src string) {
 	}
 	d.parts = append(d.parts, fmt.Sprintf("(=> %s %s)", reach, goal))
 }
+
+func (g *Gen) abstractedOnce(msg string) {
+	for _, a := range g.abstracted {
+		if a == msg {
+			return
+		}
+	}
+	g.abstracted = append(g.abstracted, msg)
+}
